@@ -188,6 +188,17 @@ def _worker_hyp(check, strategy, n, seed, known, budget_s, shrink):
             continue
         except hypothesis.errors.Unsatisfiable as e:
             raise HarnessError("generator unsatisfiable: %s" % e)
+        except hypothesis.errors.Flaky:
+            # the case failed once and passed when replayed: its outcome depends on process state left by
+            # earlier cases.  Keep the case (the parent re-confirms it in a fresh process) and go on.
+            if "last" not in holder:
+                raise
+            case, r = holder["last"]
+            st.failures[r["bucket"]] = (case, "[not reproduced on immediate replay: state-dependent] " + r.get("detail", ""))
+            st.notes.append("flaky:" + r["bucket"])
+            skip.add(r["bucket"])
+            attempt += 1
+            continue
         break
     return st
 
@@ -335,6 +346,21 @@ def run_check(mod, tier, seed, replay=None):
     if hasattr(mod, "extra_phase"):
         extra = mod.extra_phase(ctx, known, total)
 
+    # 3b. optional re-confirmation of every failure in a freshly forked process
+    if getattr(mod, "CONFIRM_IN_FRESH_CHILD", False):
+        for b in sorted(total.failures):
+            if known.is_known(b):
+                continue
+            case, detail = total.failures[b]
+            with multiprocessing.get_context("fork").Pool(1) as pool:
+                out = pool.apply(_confirm, (mod.__name__, fail_stage.get(b), case, tier, seed))
+            if out == "ok":
+                total.notes.append("not reproduced in a fresh process (history-dependent, see C03): %s | %s" % (b, str(detail)[:300]))
+                total.classes["unconfirmed-in-fresh-process"] += 1
+                del total.failures[b]
+            elif isinstance(out, tuple):
+                raise HarnessError("confirmation crashed:\n" + out[1])
+
     # 4. verdict
     violations = []
     os.makedirs(os.path.join(VERIF, "replays"), exist_ok=True)
@@ -402,6 +428,23 @@ def run_check(mod, tier, seed, replay=None):
             print("  bucket=%s detail=%s" % (b, str(detail)[:400]))
         return 1
     return 0
+
+
+def _confirm(mod_name, stage_name, case, tier, seed):
+    try:
+        import importlib
+        mod = importlib.import_module(mod_name)
+        ctx = Ctx(mod.ID, tier, seed)
+        if hasattr(mod, "worker_init"):
+            mod.worker_init(ctx)
+        check = mod.check_case
+        for s in mod.stages(ctx):
+            if s.name == stage_name and s.check:
+                check = s.check
+        r = _call_check(check, case)
+        return "ok" if r["ok"] else "fail"
+    except BaseException:
+        return ("ERROR", traceback.format_exc())
 
 
 def _run_regressions(mod_name, tier, seed, regdir, files, known):
